@@ -76,6 +76,89 @@ def candidates(ops=None):
     return cands
 
 
+def wrong_variable_candidates():
+    """one occurrence of a parameter / local replaced by another parameter / local of the same function"""
+    cands = []
+    ident = re.compile(r'\b[a-z_][a-z0-9_]*\b')
+    kw = {'let', 'mut', 'for', 'in', 'if', 'else', 'match', 'while', 'loop', 'return', 'fn', 'pub', 'self', 'as', 'ref', 'move', 'true', 'false', 'continue', 'break',
+          'impl', 'where', 'use', 'mod', 'crate', 'super', 'unsafe', 'dyn', 'const', 'static', 'usize', 'f64', 'f32', 'i32', 'u64', 'bool', 'u8', 'isize', 'i64', 'str', 'u32'}
+    for path in source_files():
+        lines = open(path).read().split('\n')
+        end = len(lines)
+        for i, l in enumerate(lines):
+            if l.strip() == '#[cfg(test)]' and i + 1 < len(lines) and lines[i + 1].strip().startswith('mod '):
+                end = i
+                break
+        i = 0
+        while i < end:
+            m = re.match(r'^(\s*)(pub(\([a-z]+\))? )?fn ([a-zA-Z_0-9]+)', lines[i])
+            if not m:
+                i += 1
+                continue
+            indent = m.group(1)
+            # signature up to the opening brace, body up to the closing brace at the same indent
+            j = i
+            while j < end and not lines[j].rstrip().endswith('{'):
+                j += 1
+            k = j + 1
+            while k < end and lines[k] != indent + '}':
+                k += 1
+            sig = ' '.join(lines[i:j + 1])
+            names = set(re.findall(r'\b([a-z_][a-z0-9_]*)\s*:', sig.split('->')[0])) - kw
+            for q in range(j + 1, k):
+                for mm in re.finditer(r'\blet (?:mut )?\(?([a-z_][a-z0-9_]*(?:, (?:mut )?[a-z_][a-z0-9_]*)*)\)?', lines[q]):
+                    for nm in re.split(r',\s*', mm.group(1)):
+                        names.add(nm.replace('mut ', '').strip())
+                for mm in re.finditer(r'\bfor \(?([a-z_][a-z0-9_]*(?:, [a-z_][a-z0-9_]*)*)\)? in', lines[q]):
+                    for nm in re.split(r',\s*', mm.group(1)):
+                        names.add(nm.strip())
+            names = {x for x in names if x not in kw and len(x) > 1 and not x.startswith('_')}
+            if len(names) >= 2:
+                for q in range(j + 1, k):
+                    l = lines[q]
+                    if SKIP_LINE.match(l) or '"' in l or l.strip().startswith('let ') and '=' not in l:
+                        continue
+                    for mm in ident.finditer(l):
+                        a = mm.group(0)
+                        if a not in names:
+                            continue
+                        before = l[:mm.start()]
+                        if before.rstrip().endswith('let') or before.rstrip().endswith('mut') or before.rstrip().endswith('.') or l[mm.end():mm.end() + 1] == ':' or before.rstrip().endswith('|'):
+                            continue
+                        for bname in sorted(names):
+                            if bname != a:
+                                cands.append((path, q, l, l[:mm.start()] + bname + l[mm.end():], -1))
+            i = k + 1
+    return cands
+
+
+def gen3(outdir, n, seed):
+    os.makedirs(outdir, exist_ok=True)
+    c = wrong_variable_candidates()
+    random.Random(seed).shuffle(c)
+    seen, chosen = {}, []
+    for x in c:
+        key = (x[0], x[1])
+        if seen.get(key, 0) >= 1:
+            continue
+        seen[key] = 1
+        chosen.append(x)
+        if len(chosen) >= n:
+            break
+    index = []
+    for j, (path, i, old, new, k) in enumerate(chosen):
+        rel = os.path.relpath(path, REPO)
+        a = open(path).read().split('\n')
+        b = list(a)
+        b[i] = new
+        diff = '\n'.join(difflib.unified_diff(a, b, 'a/' + rel, 'b/' + rel, lineterm='', n=3)) + '\n'
+        name = 'x%04d.diff' % j
+        open(os.path.join(outdir, name), 'w').write('diff --git a/%s b/%s\n' % (rel, rel) + diff)
+        index.append({'name': name, 'file': rel, 'line': i + 1, 'old': old.strip(), 'new': new.strip(), 'op': 'wrong variable'})
+    json.dump(index, open(os.path.join(outdir, 'index.json'), 'w'), indent=1)
+    print(len(c), 'candidate replacements,', len(chosen), 'mutants written to', outdir)
+
+
 def gen(outdir, n, seed, ops=None):
     ops = ops or OPS
     os.makedirs(outdir, exist_ok=True)
@@ -173,6 +256,8 @@ if __name__ == '__main__':
     cmd = sys.argv[1]
     if cmd == 'gen':
         gen(sys.argv[2], int(sys.argv[3]) if len(sys.argv) > 3 else 400, int(sys.argv[4]) if len(sys.argv) > 4 else 1)
+    elif cmd == 'gen3':
+        gen3(sys.argv[2], int(sys.argv[3]) if len(sys.argv) > 3 else 400, int(sys.argv[4]) if len(sys.argv) > 4 else 3)
     elif cmd == 'gen2':
         gen(sys.argv[2], int(sys.argv[3]) if len(sys.argv) > 3 else 400, int(sys.argv[4]) if len(sys.argv) > 4 else 1, OPS2)
     elif cmd == 'run':
